@@ -164,11 +164,11 @@ func runPipeScenario(r *rand.Rand, kr *keyring, w *ndWriter, idx int) {
 			rec = rawRecord(r, 23, 0x77, l)
 			pr = pipeRec{T: "APP", Len: l}
 		case k < 5:
-			l := pipeLens[r.Intn(len(pipeLens))]
+			l := max(1, pipeLens[r.Intn(len(pipeLens))]) // only application data may have an empty fragment (RFC 8446 5.1)
 			rec = rawRecord(r, 22, 11, l)
 			pr = pipeRec{T: "HS", Len: l}
 		case k < 7:
-			l := []int{0, 1, 2, 300}[r.Intn(4)]
+			l := []int{1, 2, 300}[r.Intn(3)]
 			rec = rawRecord(r, []byte{20, 21}[r.Intn(2)], 1, l)
 			pr = pipeRec{T: "OTHER", Len: l}
 		case k < 9 && !usedCH && accepted:
@@ -237,7 +237,7 @@ func runPipeScenario(r *rand.Rand, kr *keyring, w *ndWriter, idx int) {
 			rec = rawRecord(r, 23, 0x33, l)
 			br = pipeBRec{T: "APP", Len: l}
 		case k < 9:
-			l := pipeLens[r.Intn(len(pipeLens))]
+			l := max(1, pipeLens[r.Intn(len(pipeLens))])
 			rec = rawRecord(r, []byte{22, 20, 21}[r.Intn(3)], 8, l)
 			br = pipeBRec{T: "HS", Len: l}
 		case i == nB-1 && r.Intn(2) == 0:
